@@ -15,7 +15,8 @@ import (
 	"verifharness/hc"
 )
 
-// ninesCarry: the class minify.Decimal mis-prints.  dec formats with %.{prec}f and then cuts the
+// ninesCarry: the class minify.Decimal mis-prints (dec avoids it since d74a0aa by rounding first; the
+// predicate names the regression class).  dec formats with %.{prec}f and then cuts the
 // decimal STRING to prec significant digits, rounding half up on that string: when the integer part
 // has 2..prec digits, the first prec significant digits are all nines and the next digit is >= 5, the
 // carry creates a new leading digit (99.9999995 -> 100), which Decimal writes one place short ("10.").
@@ -101,13 +102,11 @@ func numbers(c *hc.Ctx) {
 		if len(sn) <= 400 {
 			c.Case(fmt.Sprintf("NUM %d %s %s", prec, hc.H(x), hexOf(sn)), "=", "ok")
 		}
-		decLine := "ok"
 		if ninesCarry(x, prec) {
-			// known defect class: the Lean verdict is expected to say so (and must say exactly that)
-			decLine = "bad imprecise"
+			c.Count("number:dec-nines-carry-class") // repaired by d74a0aa; kept as a regression class
 		}
 		if len(sd) <= 400 {
-			c.Case(fmt.Sprintf("DEC %d %s %s", prec, hc.H(x), hexOf(sd)), "=", decLine)
+			c.Case(fmt.Sprintf("DEC %d %s %s", prec, hc.H(x), hexOf(sd)), "=", "ok")
 		}
 		// coarse float check (for the replay record only)
 		rel := 0.5 * math.Pow(10, 1-float64(prec))
@@ -121,8 +120,6 @@ func numbers(c *hc.Ctx) {
 				kind, rp["class"] = "dec-imprecise:nines-carry", "dec-nines-carry"
 			}
 			fail(c, kind, fmt.Sprintf("dec(%v) prints %q", x, sd), rp)
-		} else if ninesCarry(x, prec) {
-			c.Count("number:nines-carry-printed-correctly")
 		}
 		switch {
 		case len(sn) > 0 && (sn[0] == '.' || len(sn) > 1 && sn[:2] == "-."):
